@@ -47,7 +47,13 @@ def gen_spec(rng, fmt):
             'sdate': year * 1000 + jday, 'stime': float(hour),
             'special': rng.random() < 0.5,
             # a computed source often carries float64 arrays (values representable in float32)
-            'srcdtype': rng.choice(['f', 'f', 'd'])}
+            'srcdtype': rng.choice(['f', 'f', 'd']),
+            # memory layout of the source arrays (a transposed model buffer is F-ordered)
+            'layout': rng.choice(['C', 'C', 'F']),
+            # the source is a window cut out of a larger in-memory file before writing
+            'window': rng.random() < 0.3,
+            # the output path already holds an older, longer export
+            'stale_output': rng.random() < 0.2}
     if fmt in ('uamiv', 'lateral_boundary'):
         n = rng.randrange(1, 5)
         spec['species'] = rng.sample(SPECIES, n)
@@ -178,11 +184,15 @@ def build_source(spec, truth):
             dims = ('TSTEP', 'ROW', 'COL')
         else:
             dims = ('TSTEP', 'LAY', 'ROW', 'COL')
-        v = f.createVariable(k, spec.get('srcdtype', 'f'), dims)
+        if spec.get('layout') == 'F' and a.ndim >= 2:
+            src = np.asfortranarray(a.astype(spec.get('srcdtype', 'f')))
+            v = f.createVariable(k, spec.get('srcdtype', 'f'), dims, values=src)
+        else:
+            v = f.createVariable(k, spec.get('srcdtype', 'f'), dims)
+            v[...] = a
         v.units = 'ppm'.ljust(16)
         v.long_name = k.ljust(16)
         v.var_desc = k.ljust(80)
-        v[...] = a
     setattr(f, 'VAR-LIST', ''.join(k.ljust(16) for k in truth['order']))
     f.NVARS = nvar
     f.NLAYS = spec['nz']
@@ -210,6 +220,26 @@ def build_source(spec, truth):
     if fmt == 'wind':
         f.LSTAGGER = np.array(h['lstagger'], dtype='>i')
     return f
+
+
+def windowed_source(spec, truth):
+    """The same content obtained the way a user often gets it: a larger file
+    (two extra columns and rows, one extra layer for 3-D formats) is built and
+    the wanted window is cut out with sliceDimensions.  The generic slicer
+    keeps global attributes (NCOLS, NROWS, NLAYS ...) of the parent."""
+    fmt = spec['fmt']
+    if fmt == 'lateral_boundary':
+        return build_source(spec, truth)
+    big = dict(spec, nx=spec['nx'] + 2, ny=spec['ny'] + 2, nz=spec['nz'] + 1)
+    tb = truth_of(big)
+    for k, a in truth['vars'].items():
+        if a.ndim == 4:
+            tb['vars'][k][:, :spec['nz'], 1:1 + spec['ny'], 1:1 + spec['nx']] = a
+        else:
+            tb['vars'][k][:, 1:1 + spec['ny'], 1:1 + spec['nx']] = a
+    fb = build_source(dict(big, layout='C'), tb)
+    return fb.sliceDimensions(COL=slice(1, 1 + spec['nx']), ROW=slice(1, 1 + spec['ny']),
+                              LAY=slice(0, spec['nz']))
 
 
 def library_write(f, path, fmt, spec):
@@ -518,10 +548,26 @@ def apply(st, op):
         fmt = spec['fmt']
         try:
             truth = truth_of(spec)
-            f = build_source(spec, truth)
+            if spec.get('window') and o == 'write':
+                f = windowed_source(spec, truth)
+                w.probe('source_is_a_window_of_a_larger_file')
+            else:
+                f = build_source(spec, truth)
+            from .core import snapshot as _snap
+            before = _snap.snap_file(f)
         except BaseException as e:
             raise HarnessError('cannot build source %r: %r' % (spec, e))
         path = w.path(op['file'])
+        if spec.get('stale_output') and o == 'write':
+            # an older, longer export already sits at the output path
+            old = dict(spec, nt=spec['nt'] + 2, window=False, layout='C')
+            try:
+                ot = truth_of(old)
+                ho = library_write(build_source(old, ot), path, fmt, old)
+                ho.close()
+                w.fault('output_path_holds_older_longer_file')
+            except BaseException:
+                pass
         try:
             h = library_write(f, path, fmt, spec)
         except BaseException as e:
@@ -538,6 +584,14 @@ def apply(st, op):
         ack = path + '.ack'
         shutil.copyfile(path, ack)
         w.fault('crash_at_ack_image')
+        # writing is a query on the source: read(write(f)) is compared with f,
+        # so f itself must still be what it was
+        dsrc = _snap.diff(before, _snap.snap_file(f))
+        if dsrc:
+            _raise(st, 'C08', 'writer-modified-source',
+                   'writing a %s file (%s) changed the source file object: %s' % (
+                       fmt, _desc(spec), '; '.join(dsrc[:3])),
+                   {'format': fmt})
         st.stats['writes'] += 1
         st.stats['by_format'][fmt] = st.stats['by_format'].get(fmt, 0) + 1
         st.wr[op['cid']] = {'path': path, 'ack': ack, 'handle': h, 'fmt': fmt, 'spec': spec,
